@@ -1,8 +1,11 @@
 import Carquet.Util
+import Driver.Ops.Bloom
 import Driver.Ops.Crc
 import Driver.Ops.Lz4
+import Driver.Ops.Rle
 import Driver.Ops.Schema
 import Driver.Ops.Simd
+import Driver.Ops.Snappy
 import Driver.Ops.Stats
 /-
 Line-protocol driver.  One harness line in (operation, inputs, and what the real code
@@ -11,10 +14,13 @@ returned), one verdict line out.  See Carquet/Util.lean for the syntax.
 open Carquet.Util
 
 def handlers : List (Line → Option Verdict) :=
-  [ Driver.Ops.Crc.handle,
+  [ Driver.Ops.Bloom.handle,
+    Driver.Ops.Crc.handle,
     Driver.Ops.Lz4.handle,
+    Driver.Ops.Rle.handle,
     Driver.Ops.Schema.handle,
     Driver.Ops.Simd.handle,
+    Driver.Ops.Snappy.handle,
     Driver.Ops.Stats.handle ]
 
 def stepLine (s : String) : String :=
